@@ -10,8 +10,12 @@ def jobs(tier):
     fns = [fn_id(TY.Artifact.__eq__), fn_id(TY.Artifact.__hash__)]
     st = ["the name `hash` inside ctparse/types.py is bound to an injective stand-in (equal arguments give equal results, nothing else assumed)"]
     return [
-        Job("C18.EQ+HASH[Time]", H, "ob_eq_time", timeout=900, bounds="two Times: presence mask 0..127 each, all fields over their full ranges, 3 parts of day, spans symbolic",
-            functions=fns + [fn_id(TY.Time.__init__)], stubs=st, site="Time"),
+    ] + [
+        Job("C18.EQ+HASH[Time/mask{}]".format(mk), H, "ob_eq_time", env={"VQ_MASK": str(mk)}, timeout=900,
+            bounds="Time a: fields present = bit mask {} (year=1, month=2, day=4, hour=8, minute=16, DOW=32, POD=64); Time b: any of the 128 masks; all fields over their full ranges, spans symbolic".format(mk),
+            functions=fns + [fn_id(TY.Time.__init__)], stubs=st, site="Time")
+        for mk in ([7, 31, 24, 8, 32, 64, 6, 0, 127] if tier == "quick" else range(128))
+    ] + [
         Job("C18.EQ+HASH[Duration]", H, "ob_eq_duration", timeout=300, bounds="two Durations: amount 0..10^4, 6 units, spans symbolic",
             functions=fns + [fn_id(TY.Duration.__init__)], stubs=st, lift="lift_eq_duration", site="Duration"),
         Job("C18.EQ+HASH[Interval]", H, "ob_eq_interval", timeout=900, bounds="two Intervals: each end None | clock | date | date+clock with symbolic hour/minute/year, spans symbolic (incl. inner spans)",
